@@ -339,3 +339,12 @@ WEEKDAY_FULL = ["Monday", "Tuesday", "Wednesday", "Thursday", "Friday",
                 "Saturday", "Sunday"]
 MONTH_FULL = ["January", "February", "March", "April", "May", "June", "July",
               "August", "September", "October", "November", "December"]
+
+
+def render_unix_date(f):
+    """Unix `date` notation in UTC: '%a %d %b %H:%M:%S UTC %Y'."""
+    if not 1000 <= f["y"] <= 9999:
+        return None
+    return "%s %02d %s %02d:%02d:%02d UTC %04d" % (
+        WEEKDAY_ABBR[f["wd"] - 1], f["d"], MONTH_ABBR[f["m"] - 1], f["H"],
+        f["M"], f["S"], f["y"])
